@@ -1,14 +1,230 @@
 (* FieldsLemmas.v — lemmas about the field model (Fields.v). *)
 From Coq Require Import ZArith NArith String List Bool Lia SpecFloat.
-From Cinco Require Import Base Str Num Net Codec Fields.
+From Cinco Require Import Base Str StrLemmas Num Net Codec Fields.
 Import ListNotations.
 Open Scope Z_scope.
 
-(* F13: strip(chars) runs before the case transform, so a validated value can be stripped further *)
-Definition f13_field : field := FStr false (mk_sopts None None None [] CLower (SChars (sa "a"))).
-Lemma validate_idem_refuted :
-  exists f x v, known_F13 f = true /\ validate f x = Ok v /\ validate f v <> Ok v.
+(* ============================ the StringField pipeline ============================ *)
+Definition case_step (c : case_opt) (s1 : str) : res str :=
+  match c with
+  | CNone => Ok s1
+  | c => if case_modelled s1 then Ok (apply_case c s1) else Unmodelled
+  end.
+Definition str_post (orc : oracle) (o : sopts) (s2 : str) : res str :=
+  if match so_min o with Some m => len_z s2 <? m | None => false end then Err EValue
+  else if match so_max o with Some m => m <? len_z s2 | None => false end then Err EValue
+  else
+    do _ <- match so_regex o with
+            | None => Ok tt
+            | Some p => match orc p s2 with
+                        | Some true => Ok tt
+                        | Some false => Err EValue
+                        | None => Unmodelled
+                        end
+            end ;;
+    if negb (is_nil (so_choices o)) && negb (str_mem s2 (so_choices o)) then Err EValue
+    else Ok s2.
+
+Lemma str_validate_eq : forall orc req o s,
+  str_validate orc req o (PStr s) =
+  let s1 := apply_strip (so_strip o) s in
+  if req && is_nil s1 then Err EValue else do s2 <- case_step (so_case o) s1 ;; str_post orc o s2.
+Proof. intros. unfold str_validate, case_step, str_post. destruct (so_case o); reflexivity. Qed.
+
+Lemma str_validate_str : forall orc req o x v, str_validate orc req o x = Ok v -> exists s, x = PStr s.
+Proof. intros orc req o x v H. destruct x; try discriminate. eauto. Qed.
+
+(* the declared constraints of a string field on a value *)
+Definition str_meets (orc : oracle) (req : bool) (o : sopts) (v : str) : Prop :=
+  (forall m, so_min o = Some m -> m <= len_z v) /\
+  (forall m, so_max o = Some m -> len_z v <= m) /\
+  (forall p, so_regex o = Some p -> orc p v = Some true) /\
+  (so_choices o <> [] -> In v (so_choices o)) /\
+  (req = true -> v <> []).
+
+Lemma str_mem_In : forall s l, str_mem s l = true <-> In s l.
 Proof.
-  exists f13_field, (PStr (sa "Ab")), (PStr (sa "ab")).
-  split; [reflexivity|]. split; [vm_compute; reflexivity|]. vm_compute. discriminate.
+  intros s l. unfold str_mem. rewrite existsb_exists. split.
+  - intros [y [Hy E]]. apply str_eqb_eq in E. now subst.
+  - intro H. exists s. split; [exact H|apply str_eqb_refl].
+Qed.
+
+Lemma str_post_iff : forall orc o s v,
+  str_post orc o s = Ok v <-> v = s /\ str_meets orc false o s.
+Proof.
+  intros orc o s v. unfold str_post, str_meets. split.
+  - intro H.
+    destruct (so_min o) as [mn|] eqn:Emn.
+    + destruct (len_z s <? mn) eqn:E1; [discriminate|].
+      destruct (so_max o) as [mx|] eqn:Emx.
+      * destruct (mx <? len_z s) eqn:E2; [discriminate|].
+        destruct (so_regex o) as [p|] eqn:Erx.
+        -- destruct (orc p s) as [[|]|] eqn:Eo; try discriminate. cbn in H.
+           destruct (negb (is_nil (so_choices o)) && negb (str_mem s (so_choices o))) eqn:Ec; [discriminate|].
+           injection H as <-. split; [reflexivity|]. repeat split; intros; try congruence.
+           ++ injection H as <-. lia.
+           ++ injection H as <-. lia.
+           ++ apply andb_false_iff in Ec as [Ec|Ec]; apply negb_false_iff in Ec.
+              ** destruct (so_choices o); [congruence|discriminate].
+              ** now apply str_mem_In.
+        -- cbn in H.
+           destruct (negb (is_nil (so_choices o)) && negb (str_mem s (so_choices o))) eqn:Ec; [discriminate|].
+           injection H as <-. split; [reflexivity|]. repeat split; intros; try congruence.
+           ++ injection H as <-. lia.
+           ++ injection H as <-. lia.
+           ++ apply andb_false_iff in Ec as [Ec|Ec]; apply negb_false_iff in Ec.
+              ** destruct (so_choices o); [congruence|discriminate].
+              ** now apply str_mem_In.
+      * destruct (so_regex o) as [p|] eqn:Erx.
+        -- destruct (orc p s) as [[|]|] eqn:Eo; try discriminate. cbn in H.
+           destruct (negb (is_nil (so_choices o)) && negb (str_mem s (so_choices o))) eqn:Ec; [discriminate|].
+           injection H as <-. split; [reflexivity|]. repeat split; intros; try congruence.
+           ++ injection H as <-. lia.
+           ++ apply andb_false_iff in Ec as [Ec|Ec]; apply negb_false_iff in Ec.
+              ** destruct (so_choices o); [congruence|discriminate].
+              ** now apply str_mem_In.
+        -- cbn in H.
+           destruct (negb (is_nil (so_choices o)) && negb (str_mem s (so_choices o))) eqn:Ec; [discriminate|].
+           injection H as <-. split; [reflexivity|]. repeat split; intros; try congruence.
+           ++ injection H as <-. lia.
+           ++ apply andb_false_iff in Ec as [Ec|Ec]; apply negb_false_iff in Ec.
+              ** destruct (so_choices o); [congruence|discriminate].
+              ** now apply str_mem_In.
+    + destruct (so_max o) as [mx|] eqn:Emx.
+      * destruct (mx <? len_z s) eqn:E2; [discriminate|].
+        destruct (so_regex o) as [p|] eqn:Erx.
+        -- destruct (orc p s) as [[|]|] eqn:Eo; try discriminate. cbn in H.
+           destruct (negb (is_nil (so_choices o)) && negb (str_mem s (so_choices o))) eqn:Ec; [discriminate|].
+           injection H as <-. split; [reflexivity|]. repeat split; intros; try congruence.
+           ++ injection H as <-. lia.
+           ++ apply andb_false_iff in Ec as [Ec|Ec]; apply negb_false_iff in Ec.
+              ** destruct (so_choices o); [congruence|discriminate].
+              ** now apply str_mem_In.
+        -- cbn in H.
+           destruct (negb (is_nil (so_choices o)) && negb (str_mem s (so_choices o))) eqn:Ec; [discriminate|].
+           injection H as <-. split; [reflexivity|]. repeat split; intros; try congruence.
+           ++ injection H as <-. lia.
+           ++ apply andb_false_iff in Ec as [Ec|Ec]; apply negb_false_iff in Ec.
+              ** destruct (so_choices o); [congruence|discriminate].
+              ** now apply str_mem_In.
+      * destruct (so_regex o) as [p|] eqn:Erx.
+        -- destruct (orc p s) as [[|]|] eqn:Eo; try discriminate. cbn in H.
+           destruct (negb (is_nil (so_choices o)) && negb (str_mem s (so_choices o))) eqn:Ec; [discriminate|].
+           injection H as <-. split; [reflexivity|]. repeat split; intros; try congruence.
+           apply andb_false_iff in Ec as [Ec|Ec]; apply negb_false_iff in Ec.
+           ** destruct (so_choices o); [congruence|discriminate].
+           ** now apply str_mem_In.
+        -- cbn in H.
+           destruct (negb (is_nil (so_choices o)) && negb (str_mem s (so_choices o))) eqn:Ec; [discriminate|].
+           injection H as <-. split; [reflexivity|]. repeat split; intros; try congruence.
+           apply andb_false_iff in Ec as [Ec|Ec]; apply negb_false_iff in Ec.
+           ** destruct (so_choices o); [congruence|discriminate].
+           ** now apply str_mem_In.
+  - intros [-> (Hmn & Hmx & Hrx & Hch & _)].
+    destruct (so_min o) as [mn|]; [specialize (Hmn mn eq_refl); replace (len_z s <? mn) with false by (symmetry; apply Z.ltb_ge; lia)|];
+    (destruct (so_max o) as [mx|]; [specialize (Hmx mx eq_refl); replace (mx <? len_z s) with false by (symmetry; apply Z.ltb_ge; lia)|]);
+    (destruct (so_regex o) as [p|]; [rewrite (Hrx p eq_refl)|]); cbn;
+    (destruct (so_choices o) as [|c0 cs] eqn:Ec; [reflexivity|]);
+    (assert (Hin : str_mem s (c0 :: cs) = true) by (apply str_mem_In, Hch; congruence)); rewrite Hin; reflexivity.
+Qed.
+
+Lemma apply_case_length : forall c s, length (apply_case c s) = length s.
+Proof. intros [] s; cbn; [reflexivity|apply lower_length|apply upper_length]. Qed.
+Lemma apply_case_idem : forall c s, apply_case c (apply_case c s) = apply_case c s.
+Proof. intros [] s; cbn; [reflexivity|apply lower_idem|apply upper_idem]. Qed.
+Lemma is_nil_length : forall (A : Type) (a b : list A), length a = length b -> is_nil a = is_nil b.
+Proof. intros A [|x a] [|y b] H; cbn in *; congruence. Qed.
+Lemma is_nil_false : forall (A : Type) (l : list A), is_nil l = false <-> l <> [].
+Proof. intros A [|x l]; cbn; split; congruence. Qed.
+
+Lemma case_known_lower_c : forall c, case_known (lower_c c) = case_known c.
+Proof. intro c. unfold case_known. now rewrite is_ascii_lower_c, is_space_lower_c. Qed.
+Lemma case_known_upper_c : forall c, case_known (upper_c c) = case_known c.
+Proof. intro c. unfold case_known. now rewrite is_ascii_upper_c, is_space_upper_c. Qed.
+Lemma forallb_map_inv : forall (p : N -> bool) f l, (forall c, p (f c) = p c) -> forallb p (map f l) = forallb p l.
+Proof. intros p f l H. induction l as [|a l IH]; cbn; [reflexivity|now rewrite H, IH]. Qed.
+Lemma case_modelled_apply : forall c s, case_modelled (apply_case c s) = case_modelled s.
+Proof.
+  intros [] s; cbn; [reflexivity| |]; unfold case_modelled, lower, upper.
+  - apply forallb_map_inv, case_known_lower_c.
+  - apply forallb_map_inv, case_known_upper_c.
+Qed.
+Lemma ends_ok_apply_case : forall c s, ends_ok is_space (apply_case c s) = ends_ok is_space s.
+Proof.
+  intros [] s; cbn; [reflexivity| |]; unfold lower, upper.
+  - apply ends_ok_map, is_space_lower_c.
+  - apply ends_ok_map, is_space_upper_c.
+Qed.
+
+Lemma case_step_ok : forall c s1 s2,
+  case_step c s1 = Ok s2 <-> s2 = apply_case c s1 /\ (c = CNone \/ case_modelled s1 = true).
+Proof.
+  intros c s1 s2. unfold case_step. destruct c; cbn.
+  - split; [intro H; injection H as <-; auto|intros [-> _]; reflexivity].
+  - destruct (case_modelled s1); split; try discriminate.
+    + intro H; injection H as <-; auto.
+    + intros [-> _]; reflexivity.
+    + intros [_ [H|H]]; discriminate.
+  - destruct (case_modelled s1); split; try discriminate.
+    + intro H; injection H as <-; auto.
+    + intros [-> _]; reflexivity.
+    + intros [_ [H|H]]; discriminate.
+Qed.
+
+(* declarative normal form and acceptance of a string field *)
+Definition str_norm (o : sopts) (s : str) : str := apply_case (so_case o) (apply_strip (so_strip o) s).
+Definition str_accepts (orc : oracle) (req : bool) (o : sopts) (s : str) : Prop :=
+  (so_case o = CNone \/ case_modelled (apply_strip (so_strip o) s) = true) /\ str_meets orc req o (str_norm o s).
+
+Lemma str_validate_exact : forall orc req o s v,
+  str_validate orc req o (PStr s) = Ok v <-> str_accepts orc req o s /\ v = str_norm o s.
+Proof.
+  intros orc req o s v. rewrite str_validate_eq. cbv zeta. unfold str_accepts, str_norm.
+  set (s1 := apply_strip (so_strip o) s). split.
+  - intro H. destruct (req && is_nil s1) eqn:Er; [discriminate|].
+    destruct (case_step (so_case o) s1) as [s2| |] eqn:Ec; try discriminate. cbn in H.
+    apply case_step_ok in Ec as [-> Hc]. apply str_post_iff in H as [-> Hm].
+    split; [|reflexivity]. split; [exact Hc|].
+    destruct Hm as (A & B & C & D & _). repeat split; auto.
+    intros -> E. cbn in Er. apply is_nil_false in Er. apply Er.
+    apply length_zero_iff_nil. rewrite <- (apply_case_length (so_case o)), E. reflexivity.
+  - intros [[Hc Hm] ->]. destruct Hm as (A & B & C & D & E).
+    assert (Er : req && is_nil s1 = false).
+    { destruct req; [cbn|reflexivity]. apply is_nil_false. intro Hn. apply (E eq_refl). rewrite Hn. now destruct (so_case o). }
+    rewrite Er. assert (Ec : case_step (so_case o) s1 = Ok (apply_case (so_case o) s1)) by (apply case_step_ok; auto).
+    rewrite Ec. cbn. apply str_post_iff. split; [reflexivity|]. repeat split; auto. discriminate.
+Qed.
+
+Lemma str_validate_sound : forall orc req o x v, str_validate orc req o x = Ok v -> str_meets orc req o v.
+Proof.
+  intros orc req o x v H. destruct (str_validate_str _ _ _ _ _ H) as [s ->].
+  apply str_validate_exact in H as [[_ Hm] ->]. exact Hm.
+Qed.
+
+(* a value that meets the constraints and is left alone by the transforms is a fixed point *)
+Lemma str_validate_fixpoint : forall orc req o v,
+  str_meets orc req o v -> apply_strip (so_strip o) v = v -> apply_case (so_case o) v = v ->
+  (so_case o = CNone \/ case_modelled v = true) -> str_validate orc req o (PStr v) = Ok v.
+Proof.
+  intros orc req o v Hm Hs Hc Hk. apply str_validate_exact. unfold str_accepts, str_norm. rewrite Hs, Hc. auto.
+Qed.
+
+Lemma apply_strip_norm : forall o s, sopts_F13 o = false ->
+  apply_strip (so_strip o) (str_norm o s) = str_norm o s.
+Proof.
+  intros o s HF. unfold str_norm, sopts_F13 in *. destruct (so_strip o) as [| |cs] eqn:Es; cbn.
+  - reflexivity.
+  - apply strip_by_fix. rewrite ends_ok_apply_case. apply strip_by_ends.
+  - destruct (so_case o); try discriminate. cbn. apply strip_chars_idem.
+Qed.
+
+Lemma str_validate_idem : forall orc req o x v, sopts_F13 o = false ->
+  str_validate orc req o x = Ok v -> str_validate orc req o (PStr v) = Ok v.
+Proof.
+  intros orc req o x v HF H. destruct (str_validate_str _ _ _ _ _ H) as [s ->].
+  apply str_validate_exact in H as [[Hc Hm] ->].
+  apply str_validate_fixpoint; auto.
+  - now apply apply_strip_norm.
+  - apply apply_case_idem.
+  - destruct Hc as [Hc|Hc]; [now left|right]. unfold str_norm. now rewrite case_modelled_apply.
 Qed.
